@@ -20,6 +20,7 @@ import (
 
 	"github.com/alibaba/sentinel-golang/core/base"
 	"github.com/alibaba/sentinel-golang/core/config"
+	sbase "github.com/alibaba/sentinel-golang/core/stat/base"
 	"github.com/alibaba/sentinel-golang/logging"
 	"github.com/alibaba/sentinel-golang/util"
 )
@@ -74,7 +75,8 @@ func NewWarmUpTrafficShapingCalculator(owner *TrafficShapingController, rule *Ru
 	if !(warning < tokenCeiling) {
 		warning = tokenCeiling
 	}
-	above := 2 * period * rule.Threshold / float64(1.0+coldFactor)
+	// (1 + coldFactor in floating point: in the uint32 of the factor the sum wraps for MaxUint32)
+	above := 2 * period * rule.Threshold / (1.0 + float64(coldFactor))
 	if !(above < tokenCeiling) {
 		above = tokenCeiling
 	}
@@ -108,12 +110,22 @@ func NewWarmUpTrafficShapingCalculator(owner *TrafficShapingController, rule *Ru
 
 func (c *WarmUpTrafficShapingCalculator) CalculateAllowedTokens(batchCount uint32, _ int32) float64 {
 	metricReadonlyStat := c.BoundOwner().boundStat.readOnlyMetric
-	previousQps := metricReadonlyStat.GetPreviousQPS(base.MetricEventPass)
-	// the tokens that passed in the previous interval
-	// (a count: the rate per second times the interval does not always give the count back exactly -
-	// 3 per 900 ms comes back as 2.9999999999999996 - and a count just under the low-traffic bound made
-	// a saturated rule look idle for ever)
-	c.syncToken(math.Round(previousQps*float64(c.intervalInMs)/1000.0), batchCount)
+	// The tokens that passed in the previous interval: the interval that ended where the current one
+	// began. (GetPreviousQPS looks at the window as it was one bucket ago, which is that interval only
+	// for a request in the first bucket of the current one: a demand whose first request of an interval
+	// came later had the first part of the previous interval left out, looked idle, and never left
+	// the cold rate.)
+	var previousPass float64
+	now := util.CurrentTimeMillis()
+	if sw, ok := metricReadonlyStat.(*sbase.SlidingWindowMetric); ok && now >= c.intervalInMs {
+		previousPass = float64(sw.GetSumWithTime(now-now%c.intervalInMs-1, base.MetricEventPass))
+	} else {
+		// (a count: the rate per second times the interval does not always give the count back exactly -
+		// 3 per 900 ms comes back as 2.9999999999999996 - and a count just under the low-traffic bound
+		// made a saturated rule look idle for ever)
+		previousPass = math.Round(metricReadonlyStat.GetPreviousQPS(base.MetricEventPass) * float64(c.intervalInMs) / 1000.0)
+	}
+	c.syncToken(previousPass, batchCount)
 
 	restToken := atomic.LoadInt64(&c.storedTokens)
 	if restToken < 0 {
@@ -160,6 +172,18 @@ func (c *WarmUpTrafficShapingCalculator) syncToken(passQps float64, batchCount u
 	}
 }
 
+// refilled returns the bucket level after elapsedMs of refilling at the full threshold, at most maxToken.
+// (The cap is applied before the conversion to an integer: for a new calculator the elapsed time is the
+// time since 1970, and with a threshold of a few billion the product does not fit 64 bits - converted first
+// it came out negative on amd64, the bucket was taken for empty and the rule started warm.)
+func (c *WarmUpTrafficShapingCalculator) refilled(oldValue int64, elapsedMs float64) int64 {
+	v := float64(oldValue) + elapsedMs*c.threshold/float64(c.intervalInMs)
+	if !(v < float64(c.maxToken)) {
+		return int64(c.maxToken)
+	}
+	return int64(v)
+}
+
 func (c *WarmUpTrafficShapingCalculator) coolDownTokens(currentTime uint64, passQps float64, batchCount uint32) int64 {
 	oldValue := atomic.LoadInt64(&c.storedTokens)
 	newValue := oldValue
@@ -169,7 +193,7 @@ func (c *WarmUpTrafficShapingCalculator) coolDownTokens(currentTime uint64, pass
 	// at or below the warning line the bucket refills at the full rate (with a strict comparison a
 	// bucket standing exactly on the line never cooled down again, however long the resource was idle)
 	if oldValue <= int64(c.warningToken) {
-		newValue = int64(float64(oldValue) + (float64(currentTime)-float64(atomic.LoadUint64(&c.lastFilledTime)))*c.threshold/float64(c.intervalInMs))
+		newValue = c.refilled(oldValue, float64(currentTime)-float64(atomic.LoadUint64(&c.lastFilledTime)))
 	} else if oldValue > int64(c.warningToken) {
 		// the low-traffic bound is the integer quotient threshold/coldFactor; when the threshold is
 		// smaller than the cold factor that quotient is 0 and no traffic, however low, is "below" it:
@@ -187,7 +211,7 @@ func (c *WarmUpTrafficShapingCalculator) coolDownTokens(currentTime uint64, pass
 		}
 		// (an interval in which nothing passed at all is low traffic whatever the request size)
 		if passQps <= 0 || passQps+float64(batchCount-1) < float64(lowTraffic) {
-			newValue = int64(float64(oldValue) + float64(currentTime-atomic.LoadUint64(&c.lastFilledTime))*c.threshold/float64(c.intervalInMs))
+			newValue = c.refilled(oldValue, float64(currentTime-atomic.LoadUint64(&c.lastFilledTime)))
 		}
 	}
 
